@@ -174,8 +174,9 @@ def StInv {α : Type} (ops : Ops α) (s : St α) : Prop := MemoInv (ops.withLk s
 /-- one operation: from a state that is dirty (`d = true`: points were written, the memo may be stale) or
 satisfies the invariant, to the next, along a settled history. -/
 theorem inv_step {α : Type} (c : Cfg) (hi : c.initialValueResetsCache = true)
-    (ha : c.addEquationResetsCache = true) (ops : Ops α) (s : St α) (op : Op α)
-    (h : StInv ops s) (hop : ∀ p f, op ≠ Op.setPoints p f) : StInv ops (step c ops s op) := by
+    (ha : c.addEquationResetsCache = true) (hr : c.resetClearsAllStores = true) (ops : Ops α) (s : St α) (op : Op α)
+    (h : StInv ops s) (hop : ∀ p f, op ≠ Op.setPoints p f) (hop2 : ∀ n e, op ≠ Op.rawEq n e) :
+    StInv ops (step c ops s op) := by
   cases op with
   | setEq n e => exact memoInv_nil _ _
   | setInit n e => simp only [step, hi, StInv]; exact memoInv_nil _ _
@@ -183,11 +184,13 @@ theorem inv_step {α : Type} (c : Cfg) (hi : c.initialValueResetsCache = true)
   | reset => exact memoInv_nil _ _
   | eval n k fuel => exact (evalK_sound (ops.withLk s.lk) s.body fuel s.memo (n, k) h).1
   | setPoints p f => exact absurd rfl (hop p f)
+  | sreset => simp only [step, hr, StInv]; exact memoInv_nil _ _
+  | rawEq n e => exact absurd rfl (hop2 n e)
 
 /-- every settled history keeps the invariant: `d` tells whether points were written since the memo was last
 emptied; an evaluation only happens when `d = false`. -/
 theorem inv_run_from {α : Type} (c : Cfg) (hi : c.initialValueResetsCache = true)
-    (ha : c.addEquationResetsCache = true) (ops : Ops α) (h : List (Op α)) :
+    (ha : c.addEquationResetsCache = true) (hr : c.resetClearsAllStores = true) (ops : Ops α) (h : List (Op α)) :
     ∀ (d : Bool) (s : St α), (d = false → StInv ops s) → settledFrom d h = true →
       StInv ops (run c ops s h) := by
   induction h with
@@ -204,7 +207,7 @@ theorem inv_run_from {α : Type} (c : Cfg) (hi : c.initialValueResetsCache = tru
           exact ih true _ (by intro h; cases h) hset
       | eval n k fuel =>
           simp only [settledFrom, Bool.and_eq_true, Bool.not_eq_true'] at hset
-          exact ih d _ (fun _ => inv_step c hi ha ops s _ (hs hset.1) (by intro p f h; cases h)) hset.2
+          exact ih d _ (fun _ => inv_step c hi ha hr ops s _ (hs hset.1) (by intro p f h; cases h) (by intro n e h; cases h)) hset.2
       | setEq n e =>
           simp only [settledFrom] at hset
           exact ih false _ (fun _ => memoInv_nil _ _) hset
@@ -217,11 +220,18 @@ theorem inv_run_from {α : Type} (c : Cfg) (hi : c.initialValueResetsCache = tru
       | reset =>
           simp only [settledFrom] at hset
           exact ih false _ (fun _ => memoInv_nil _ _) hset
+      | sreset =>
+          simp only [settledFrom] at hset
+          exact ih false _ (fun _ => by simp only [step, hr, StInv]; exact memoInv_nil _ _) hset
+      | rawEq n e =>
+          simp only [settledFrom] at hset
+          exact ih true _ (by intro h; cases h) hset
 
 theorem inv_run {α : Type} (c : Cfg) (hi : c.initialValueResetsCache = true)
-    (ha : c.addEquationResetsCache = true) (ops : Ops α) (h : List (Op α)) (hset : settled h = true) :
+    (ha : c.addEquationResetsCache = true) (hr : c.resetClearsAllStores = true) (ops : Ops α) (h : List (Op α))
+    (hset : settled h = true) :
     ∀ s : St α, StInv ops s → StInv ops (run c ops s h) :=
-  fun s hs => inv_run_from c hi ha ops h false s (fun _ => hs) hset
+  fun s hs => inv_run_from c hi ha hr ops h false s (fun _ => hs) hset
 
 /-- **Never stale** (clause 1): after any history of edits, cache resets, points edits (settled: followed by a
 cache reset or another edit before the next evaluation) and evaluations on a model, whatever `element(t_k)`
@@ -234,28 +244,31 @@ def C08_seq (c : Cfg) : Prop :=
     query ops { run c ops s0 h with memo := [] } n k f2 = some w → v = w
 
 theorem C08_fresh (c : Cfg) (hi : c.initialValueResetsCache = true)
-    (ha : c.addEquationResetsCache = true) : C08_seq c := by
+    (ha : c.addEquationResetsCache = true) (hr : c.resetClearsAllStores = true) : C08_seq c := by
   intro α ops s0 h0 h hset n k f1 f2 v w hv hw
   have hinv : StInv ops (run c ops s0 h) :=
-    inv_run c hi ha ops h hset s0 (by simp only [StInv, h0]; exact memoInv_nil _ _)
+    inv_run c hi ha hr ops h hset s0 (by simp only [StInv, h0]; exact memoInv_nil _ _)
   have h1 := (evalK_sound (ops.withLk (run c ops s0 h).lk) (run c ops s0 h).body f1 (run c ops s0 h).memo (n, k) hinv).2 v hv
   have h2 := (evalK_sound (ops.withLk (run c ops s0 h).lk) (run c ops s0 h).body f2 [] (n, k) (memoInv_nil _ _)).2 w hw
   exact Val.det h1 h2
 
 /-- a history without points edits is settled (the wave-1 alphabet). -/
-theorem settledFrom_false_of_noPoints {α : Type} (h : List (Op α)) (hn : ∀ op ∈ h, ∀ p f, op ≠ Op.setPoints p f) :
-    settledFrom false h = true := by
+theorem settledFrom_false_of_noPoints {α : Type} (h : List (Op α)) (hn : ∀ op ∈ h, ∀ p f, op ≠ Op.setPoints p f)
+    (hn2 : ∀ op ∈ h, ∀ n e, op ≠ Op.rawEq n e) : settledFrom false h = true := by
   induction h with
   | nil => rfl
   | cons op rest ih =>
       have hr : ∀ op ∈ rest, ∀ p f, op ≠ Op.setPoints p f := fun o ho => hn o (List.mem_cons_of_mem _ ho)
+      have hr2 : ∀ op ∈ rest, ∀ n e, op ≠ Op.rawEq n e := fun o ho => hn2 o (List.mem_cons_of_mem _ ho)
       cases op with
       | setPoints p f => exact absurd rfl (hn _ (List.mem_cons_self ..) p f)
-      | eval n k fuel => simp only [settledFrom, Bool.not_false, Bool.true_and]; exact ih hr
-      | setEq n e => simp only [settledFrom]; exact ih hr
-      | setInit n e => simp only [settledFrom]; exact ih hr
-      | addEq n e => simp only [settledFrom]; exact ih hr
-      | reset => simp only [settledFrom]; exact ih hr
+      | eval n k fuel => simp only [settledFrom, Bool.not_false, Bool.true_and]; exact ih hr hr2
+      | setEq n e => simp only [settledFrom]; exact ih hr hr2
+      | setInit n e => simp only [settledFrom]; exact ih hr hr2
+      | addEq n e => simp only [settledFrom]; exact ih hr hr2
+      | reset => simp only [settledFrom]; exact ih hr hr2
+      | sreset => simp only [settledFrom]; exact ih hr hr2
+      | rawEq n e => exact absurd rfl (hn2 _ (List.mem_cons_self ..) n e)
 
 /-- Evaluations alone never break the invariant, whatever the Cfg says (the partial result). -/
 theorem C08_partial_evals (c : Cfg) {α : Type} (ops : Ops α) (s : St α) (hs : StInv ops s)
@@ -336,9 +349,9 @@ def wStaleInit : List (Op Int) :=
 theorem C08_witness_stale_init (c : Cfg) (h : c.initialValueResetsCache = false) : ¬ C08_seq c := by
   intro hf
   have := hf Int intOps wInit rfl wStaleInit (by decide) 1 2 20 20 10 28
-  obtain ⟨i, a, f, o⟩ := c
+  obtain ⟨i, a, f, o, r⟩ := c
   simp only at h; subst h
-  cases a <;> cases f <;> cases o <;> exact absurd (this (by decide) (by decide)) (by decide)
+  cases a <;> cases f <;> cases o <;> cases r <;> exact absurd (this (by decide) (by decide)) (by decide)
 
 /-- `c = 1+1 (converter 1); k = c*3 (converter 2); k(t_0); model.add_equation('c', lambda t: 5)` -/
 def wStaleAdd : List (Op Int) :=
@@ -347,13 +360,13 @@ def wStaleAdd : List (Op Int) :=
 theorem C08_witness_stale_add (c : Cfg) (h : c.addEquationResetsCache = false) : ¬ C08_seq c := by
   intro hf
   have := hf Int intOps wInit rfl wStaleAdd (by decide) 2 0 20 20 6 15
-  obtain ⟨i, a, f, o⟩ := c
+  obtain ⟨i, a, f, o, r⟩ := c
   simp only at h; subst h
-  cases i <;> cases f <;> cases o <;> exact absurd (this (by decide) (by decide)) (by decide)
+  cases i <;> cases f <;> cases o <;> cases r <;> exact absurd (this (by decide) (by decide)) (by decide)
 
 /-- Non-vacuity of part (a): a history with every kind of operation whose final query is defined and
 equals the fresh value (stock 0 with init 10, inflow 2·dt per step; k = 2·s ⇒ k(t_2) = 28). -/
-example : query intOps (run ⟨true, true, true, true⟩ intOps wInit
+example : query intOps (run ⟨true, true, true, true, true⟩ intOps wInit
     (wStaleInit ++ [.eval 1 2 20, .reset, .addEq 3 (.lit 7), .eval 1 1 20])) 1 2 20 = some 28 := by decide
 
 
@@ -445,10 +458,10 @@ def C08_term (c : Cfg) : Prop :=
     ∃ f0, ∀ f1, f0 ≤ f1 → query ops (run c ops s0 h) n k f1 = some w
 
 theorem C08_fresh_terminates (c : Cfg) (hi : c.initialValueResetsCache = true)
-    (ha : c.addEquationResetsCache = true) : C08_term c := by
+    (ha : c.addEquationResetsCache = true) (hr : c.resetClearsAllStores = true) : C08_term c := by
   intro α ops s0 h0 h hset n k f2 w hw
   have hinv : StInv ops (run c ops s0 h) :=
-    inv_run c hi ha ops h hset s0 (by simp only [StInv, h0]; exact memoInv_nil _ _)
+    inv_run c hi ha hr ops h hset s0 (by simp only [StInv, h0]; exact memoInv_nil _ _)
   have hF : Fresh (ops.withLk (run c ops s0 h).lk) (run c ops s0 h).body (n, k) w :=
     (evalK_sound (ops.withLk (run c ops s0 h).lk) (run c ops s0 h).body f2 [] (n, k) (memoInv_nil _ _)).2 w hw
   obtain ⟨f0, hf0⟩ := evalK_complete _ _ (n, k) w hF
@@ -534,13 +547,14 @@ theorem val_total {α : Type} (ops : Ops α) (body : Nat → Expr α) (μ : Key 
 /-- **C08_total**: on an acyclic model (acyclic under the FINAL definitions), after any settled history both the
 edited model with its memo and the freshly built model terminate, and with the same value. -/
 theorem C08_total (c : Cfg) (hi : c.initialValueResetsCache = true) (ha : c.addEquationResetsCache = true)
+    (hr : c.resetClearsAllStores = true)
     {α : Type} (ops : Ops α) (s0 : St α) (h0 : s0.memo = []) (h : List (Op α)) (hset : settled h = true)
     (μ : Key → Nat) (hA : Acyclic (run c ops s0 h).body μ) (n k : Nat) :
     ∃ v f0, ∀ f, f0 ≤ f →
       query ops (run c ops s0 h) n k f = some v ∧
       query ops { run c ops s0 h with memo := [] } n k f = some v := by
   have hinv : StInv ops (run c ops s0 h) :=
-    inv_run c hi ha ops h hset s0 (by simp only [StInv, h0]; exact memoInv_nil _ _)
+    inv_run c hi ha hr ops h hset s0 (by simp only [StInv, h0]; exact memoInv_nil _ _)
   obtain ⟨v, hv⟩ := val_total (ops.withLk (run c ops s0 h).lk) _ μ hA (n, k)
   obtain ⟨f0, hf0⟩ := evalK_complete _ _ (n, k) v hv
   exact ⟨v, f0, fun f hf => ⟨hf0 f hf _ hinv, hf0 f hf [] (memoInv_nil _ _)⟩⟩
@@ -570,15 +584,15 @@ shows the same on the real code: `model.points` is a plain dict) -/
 /-- `k = LOOKUP(3, "p0")`; `k(t_0)`; `model.points["p0"] = <other table>`; `k(t_0)` again: the memo answers 3, a
 fresh model 103. -/
 theorem points_unsettled_stale :
-    query intOps (run ⟨true, true, true, true⟩ intOps wInit
+    query intOps (run ⟨true, true, true, true, true⟩ intOps wInit
         [.setEq 1 (.lookup 0 (.lit 3)), .eval 1 0 20, .setPoints 0 (fun x => x + 100)]) 1 0 20 = some 3 ∧
-    query intOps { run ⟨true, true, true, true⟩ intOps wInit
+    query intOps { run ⟨true, true, true, true, true⟩ intOps wInit
         [.setEq 1 (.lookup 0 (.lit 3)), .eval 1 0 20, .setPoints 0 (fun x => x + 100)] with memo := [] } 1 0 20
       = some 103 := by decide
 
 /-- … and settled by a `reset_cache` it is fresh again (non-vacuity of the points clause of `C08_seq`). -/
 example : settled ([.setEq 1 (.lookup 0 (.lit 3)), .eval 1 0 20, .setPoints 0 (fun x => x + 100), .reset] : List (Op Int)) = true ∧
-    query intOps (run ⟨true, true, true, true⟩ intOps wInit
+    query intOps (run ⟨true, true, true, true, true⟩ intOps wInit
         [.setEq 1 (.lookup 0 (.lit 3)), .eval 1 0 20, .setPoints 0 (fun x => x + 100), .reset]) 1 0 20 = some 103 := by
   decide
 
@@ -672,6 +686,8 @@ def settledSelFrom {α : Type} : Bool → List (Op α) → Bool
   | _, .setPoints _ _ :: r => settledSelFrom true r
   | d, .eval _ _ _ :: r => !d && settledSelFrom d r
   | _, .reset :: r => settledSelFrom false r
+  | _, .sreset :: r => settledSelFrom false r
+  | _, .rawEq _ _ :: r => settledSelFrom true r
   | d, .setEq _ _ :: r => settledSelFrom d r
   | d, .setInit _ _ :: r => settledSelFrom d r
   | d, .addEq _ _ :: r => settledSelFrom d r
@@ -697,6 +713,12 @@ theorem inv_run_sel_from {α : Type} (sel : St α → Nat → Nat → Bool) (hc 
       | reset =>
           simp only [settledSelFrom] at hset
           exact ih false _ (fun _ => memoInv_nil _ _) hset
+      | sreset =>
+          simp only [settledSelFrom] at hset
+          exact ih false _ (fun _ => memoInv_nil _ _) hset
+      | rawEq n e =>
+          simp only [settledSelFrom] at hset
+          exact ih true _ (by intro h; cases h) hset
       | setEq n e =>
           simp only [settledSelFrom] at hset
           exact ih d _ (fun hd => memoInv_clearSel _ s.body s.memo n _ (sel s n) (hc s n) (hs hd)) hset
@@ -728,20 +750,22 @@ theorem clearSel_all {α : Type} (m : Memo α) : clearSel m (fun _ => true) = []
   simp [clearSel]
 
 theorem stepSel_all_eq_step {α : Type} (c : Cfg) (hi : c.initialValueResetsCache = true)
-    (ha : c.addEquationResetsCache = true) (ho : c.operandsThroughMemo = true) (ops : Ops α) (s : St α) (op : Op α) :
+    (ha : c.addEquationResetsCache = true) (ho : c.operandsThroughMemo = true) (hr : c.resetClearsAllStores = true)
+    (ops : Ops α) (s : St α) (op : Op α) :
     stepSel selAll ops s op = step c ops s op := by
   have hall : ∀ n, clearSel s.memo (selAll s n) = [] := fun n => clearSel_all s.memo
-  cases op <;> simp [stepSel, step, installed, hall, hi, ha, ho]
+  cases op <;> simp [stepSel, step, installed, hall, hi, ha, ho, hr]
 
 theorem runSel_all_eq_run {α : Type} (c : Cfg) (hi : c.initialValueResetsCache = true)
-    (ha : c.addEquationResetsCache = true) (ho : c.operandsThroughMemo = true) (ops : Ops α) (h : List (Op α)) :
+    (ha : c.addEquationResetsCache = true) (ho : c.operandsThroughMemo = true) (hr : c.resetClearsAllStores = true)
+    (ops : Ops α) (h : List (Op α)) :
     ∀ s : St α, runSel selAll ops s h = run c ops s h := by
   induction h with
   | nil => intro s; rfl
   | cons op rest ih =>
       intro s
       simp only [runSel, run, List.foldl_cons] at ih ⊢
-      rw [stepSel_all_eq_step c hi ha ho]; exact ih _
+      rw [stepSel_all_eq_step c hi ha ho hr]; exact ih _
 
 /-! ### an incomplete users relation is unsound (the `\w+` name matcher) -/
 
@@ -1067,13 +1091,13 @@ def wSched : List Nat := [0, 0, 1, 1, 0, 1, 0, 1]
 theorem C08_witness_race (c : Cfg) (h : c.memoizeFirstStoreWins = false) : ¬ C08_conc c := by
   intro hf
   have := hf Int wSys [] [[(0, 0)], [(0, 0)]] wSched
-  obtain ⟨i, a, f, o⟩ := c
+  obtain ⟨i, a, f, o, r⟩ := c
   simp only at h; subst h
-  cases i <;> cases a <;> cases o <;> exact absurd this (by decide)
+  cases i <;> cases a <;> cases o <;> cases r <;> exact absurd this (by decide)
 
 /-- Non-vacuity of part (b): the same racing schedule under the first-store rule — both workers
 finish and both report the value stored first (0); and a 2-level deterministic system finishes. -/
-example : (exec ⟨true, true, true, true⟩ wSys (initC [] [[(0, 0)], [(0, 0)]]) wSched).log
+example : (exec ⟨true, true, true, true, true⟩ wSys (initC [] [[(0, 0)], [(0, 0)]]) wSched).log
     = [(none, (0, 0), 0), (none, (0, 0), 0)] := by decide
 
 /-! ## (wave 6) definitions are read through the memo, never copied
@@ -1109,32 +1133,63 @@ theorem C08_witness_baked (c : Cfg) (h : c.operandsThroughMemo = false) : ¬ C08
   intro hd
   have h1 := hd Int intOps (run c intOps wInit [.setEq 1 (.lit 2)]) 2 (.bin 2 (.ref 1) (.lit 3))
   have h2 := congrArg (fun b => (evalE intOps (fun m _ => (m, some (7 : Int))) b 0 []).2) h1
-  obtain ⟨i, a, f, o⟩ := c
+  obtain ⟨i, a, f, o, r⟩ := c
   simp only at h; subst h
   revert h2
-  cases i <;> cases a <;> cases f <;> decide
+  cases i <;> cases a <;> cases f <;> cases r <;> decide
 
 /-- … and the edited model is then stale against a model built from the final definitions although every memo was
 reset: `c = 2; k = c*3; c = 5; k(t_0)` answers 6; defining in the order `c = 5; k = c*3` (the final definitions) 15. -/
 theorem baked_is_stale :
-    query intOps (run ⟨true, true, true, false⟩ intOps wInit
+    query intOps (run ⟨true, true, true, false, true⟩ intOps wInit
       [.setEq 1 (.lit 2), .setEq 2 (.bin 2 (.ref 1) (.lit 3)), .setEq 1 (.lit 5)]) 2 0 20 = some 6 ∧
-    query intOps (run ⟨true, true, true, true⟩ intOps wInit
+    query intOps (run ⟨true, true, true, true, true⟩ intOps wInit
       [.setEq 1 (.lit 2), .setEq 2 (.bin 2 (.ref 1) (.lit 3)), .setEq 1 (.lit 5)]) 2 0 20 = some 15 := by decide
+
+/-! ## (wave 8) every reset path clears every store the lookup consults
+
+`MemoInv` speaks about THE memo.  If `memoize` answers from a second store before it looks into the memo, a reset
+path that empties `model.memo` alone leaves values behind that the next lookup still finds.  `Model.reset_cache` and
+`add_equation` (all edits of the modelling API) and `SimulationScenario.reset_cache` (bptk.reset_scenario_cache,
+begin_session, end_session) are separate paths; `St.memo2` holds what a lookup can still find after the memo alone
+was emptied, `Op.sreset` is the scenario-level path, `Op.rawEq` the raw write `scenario.setup_constants` makes. -/
+
+/-- **after a scenario-level reset the lookup finds nothing**: whatever was evaluated before. -/
+def C08_stores (c : Cfg) : Prop :=
+  ∀ (α : Type) (ops : Ops α) (s : St α), (step c ops s .sreset).memo = []
+
+theorem C08_stores_of_fact (c : Cfg) (h : c.resetClearsAllStores = true) : C08_stores c := by
+  intro α ops s
+  simp [step, h]
+
+/-- **a second store missed by the scenario-level path**: `c = 1+1; k = c*3; k(t_0)`; the scenario sets `c = 5`
+(raw write) and resets its cache; `k(t_0)` answers 6 from the surviving store, a freshly built model 15. -/
+def wStoreHist : List (Op Int) :=
+  [.setEq 1 (.bin 0 (.lit 1) (.lit 1)), .setEq 2 (.bin 2 (.ref 1) (.lit 3)), .eval 2 0 20, .rawEq 1 (.lit 5), .sreset]
+
+theorem C08_witness_second_store (c : Cfg) (h : c.resetClearsAllStores = false) : ¬ C08_seq c := by
+  intro hf
+  have := hf Int intOps wInit rfl wStoreHist (by decide) 2 0 20 20 6 15
+  obtain ⟨i, a, f, o, r⟩ := c
+  simp only at h; subst h
+  cases i <;> cases a <;> cases f <;> cases o <;> exact absurd (this (by decide) (by decide)) (by decide)
 
 /-! ## The full property -/
 
 /-- never stale (partial correctness, `C08_seq`) ∧ the edited model terminates whenever the fresh one does, with
 the same value (`C08_term`, wave 2) ∧ never ambiguous (`C08_conc`). -/
-def C08_full (c : Cfg) : Prop := C08_seq c ∧ C08_term c ∧ C08_conc c ∧ C08_defs c
+def C08_full (c : Cfg) : Prop := C08_seq c ∧ C08_term c ∧ C08_conc c ∧ C08_defs c ∧ C08_stores c
 
 theorem C08_full_of_good (c : Cfg) (h : c.good = true) : C08_full c := by
   simp only [Cfg.good, Bool.and_eq_true] at h
-  exact ⟨C08_fresh c h.1.1.1 h.1.1.2, C08_fresh_terminates c h.1.1.1 h.1.1.2, C08_stochastic_threads c h.1.2,
-    C08_defs_of_fact c h.2⟩
+  exact ⟨C08_fresh c h.1.1.1.1 h.1.1.1.2 h.2, C08_fresh_terminates c h.1.1.1.1 h.1.1.1.2 h.2,
+    C08_stochastic_threads c h.1.1.2, C08_defs_of_fact c h.1.2, C08_stores_of_fact c h.2⟩
 
 theorem C08_witness_baked_full (c : Cfg) (h : c.operandsThroughMemo = false) : ¬ C08_full c :=
-  fun hf => C08_witness_baked c h hf.2.2.2
+  fun hf => C08_witness_baked c h hf.2.2.2.1
+
+theorem C08_witness_second_store_full (c : Cfg) (h : c.resetClearsAllStores = false) : ¬ C08_full c :=
+  fun hf => C08_witness_second_store c h hf.1
 
 theorem C08_witness_stale_init_full (c : Cfg) (h : c.initialValueResetsCache = false) : ¬ C08_full c :=
   fun hf => C08_witness_stale_init c h hf.1
@@ -1167,6 +1222,8 @@ theorem C08_witness_race_full (c : Cfg) (h : c.memoizeFirstStoreWins = false) : 
 #print axioms C08_witness_race_full
 #print axioms C08_defs_of_fact
 #print axioms C08_witness_baked_full
+#print axioms C08_stores_of_fact
+#print axioms C08_witness_second_store_full
 #print axioms baked_is_stale
 
 end Bptk.C08
